@@ -432,6 +432,20 @@ def chainVisits : Nat → Nat
   | 1 => 2
   | j + 2 => 1 + 2 * chainVisits (j + 1)
 
+/-- a DAG of `d` `PaintComposite` tables whose source and backdrop are the SAME next paint, over one
+`PaintSolid`: paint `i < d` is `PaintComposite(src i+1, mode 0, backdrop i+1)`, paint `d` the solid.
+`d + 1` paint tables (both `Offset24`s of a composite point at the same child). -/
+def compDag (d : Nat) : Instance where
+  resolve := fun i => if i < d then some (.composite (i + 1) 0 (i + 1)) else if i = d then some (.leaf (some [])) else none
+  layer := fun _ => none
+  base := fun g => if g = 0 then .found 0 else .notFound
+  clip := fun _ => none
+
+/-- paint nodes visited below (and including) a node that has `j` composites above the solid -/
+def compVisits : Nat → Nat
+  | 0 => 1
+  | j + 1 => 1 + 2 * compVisits j
+
 /-! ## helpers for the driver and for examples -/
 
 def lookup {α : Type} (tbl : List (Nat × α)) (k : Nat) : Option α :=
